@@ -43,7 +43,7 @@ TreesOf(s) ==
     [] s.kind = "binL"  -> { Bin(s.op, s.sub, r) : r \in U1 }
     [] s.kind = "binR"  -> { Bin(s.op, s.sub, r) : r \in E1 }
 \* SYNTAX_SKIP_REGION=1 while the finding "re-association" is listed as open: stay out of its region
-SkipRegion == IOEnv.SYNTAX_SKIP_REGION = "1"
+SkipRegion == IF "SYNTAX_SKIP_REGION" \in DOMAIN IOEnv THEN IOEnv.SYNTAX_SKIP_REGION = "1" ELSE TRUE
 TreeNext == seed /\ seed' = FALSE /\ t' \in { x \in TreesOf(t) : ~(SkipRegion /\ InRegion(x)) }
 
 StrInit == seed = TRUE /\ t = Seed("str", "", A)
@@ -54,7 +54,8 @@ IsSeed == seed
 EmitTree == IsSeed \/ PrintT(<<"BEHAVIOUR", ToJson([t |-> t, p |-> Prt(t), f |-> Full(t), ok |-> RoundTrip(t)])>>)
 EmitStr  == IsSeed \/ PrintT(<<"BEHAVIOUR", ToJson([raw |-> t, ok |-> StrRoundTrip(t)])>>)
 
-\* the model's own verdict as invariants (used by the *MC configurations, which do not print)
+\* the model's own verdict as an invariant (SyntaxMCrepaired.cfg: holds; SyntaxMCpinned.cfg: violated,
+\* e.g. by a * (a / a) -- the configurations do not print and need no environment)
 TreeRoundTrip == IsSeed \/ RoundTrip(t)
 StrRoundTripInv == IsSeed \/ StrRoundTrip(t)
 =============================================================================
